@@ -93,8 +93,8 @@ vars == <<J, info, phase>>
 
 \* ---- badly scaled family: shapes [m, n, e, mod] (overridden in the cfg of the badly scaled run), listed instances
 BSShapes         == {}
-BSShapesQuick    == {[m |-> 2, n |-> 2, e |-> 2, mod |-> 4], [m |-> 2, n |-> 3, e |-> 1, mod |-> 16],
-                     [m |-> 3, n |-> 2, e |-> 2, mod |-> 192], [m |-> 3, n |-> 3, e |-> 1, mod |-> 192]}
+BSShapesQuick    == {[m |-> 2, n |-> 2, e |-> 2, mod |-> 8], [m |-> 2, n |-> 3, e |-> 1, mod |-> 32],
+                     [m |-> 3, n |-> 2, e |-> 2, mod |-> 384], [m |-> 3, n |-> 3, e |-> 1, mod |-> 384]}
 BSShapesThorough == {[m |-> 2, n |-> 2, e |-> 2, mod |-> 1], [m |-> 2, n |-> 3, e |-> 1, mod |-> 2],
                      [m |-> 3, n |-> 2, e |-> 2, mod |-> 48], [m |-> 3, n |-> 3, e |-> 1, mod |-> 48]}
 BSFile           == FALSE
@@ -186,7 +186,7 @@ BSTwoRowsMinNorm ==
         LET dn == PSub(PAdd(BSG[1][1], BSG[2][2]), PScale(2, BSG[1][2]))
             dt == PSub(PMul(BSG[1][1], BSG[2][2]), PMul(BSG[1][2], BSG[1][2]))
         IN  IF PSign(PSub(BSG[1][2], BSG[1][1])) >= 0          \* <r1, r2> >= |r1|^2: the vertex r1
-            THEN PMul(info.d2num, <<1>>) = PMul(BSG[1][1], info.d2den)
+            THEN info.d2num = PMul(BSG[1][1], info.d2den)
             ELSE IF PSign(PSub(BSG[1][2], BSG[2][2])) >= 0
             THEN info.d2num = PMul(BSG[2][2], info.d2den)
             ELSE PMul(info.d2num, dn) = PMul(dt, info.d2den)
